@@ -1,4 +1,5 @@
 import LLRP.Proofs.ReadSide
+import LLRP.Proofs.SeqDispatchEq
 /-!
 # C04 — the inbound stream stays frame-aligned whatever handlers do
 
@@ -161,5 +162,21 @@ example : (rd exCfg exEnv [0] (wire [exF1, exF2])).deliveries =
   rw [delivered_once _ _ _ _ (by decide)]; decide
 example : rdChunks exCfg exEnv [0] [[4, 61], [0, 0, 0], (wire [exF1, exF2]).drop 5] = rd exCfg exEnv [0] (wire [exF1, exF2]) := by
   unfold rdChunks; congr 1
+
+/-! ## the dispatcher model is the source
+
+`Gen.llrp_Client_passToHandler` is the go2seq translation of `Client.passToHandler` (regenerated from `reader.go` on every
+run, the deferred drain translated in place at every return). `SeqGlue.dispEnv cfg i beh` gives its calls their meaning
+over a byte stream: `c.conn` is the remaining stream (`io.ReadFull`, `io.CopyN` and `io.Copy` through the
+`io.LimitReader` consume it; running out of bytes is EOF, which `io.Copy` treats as success), the handlers are those of
+`cfg`, a handler behaves as `beh` says, a send on the reply channel hands the message to the awaiting caller. -/
+
+/-- **Source = model**: for every handler table, header, await-map content (`inMap`), handler behaviour and remaining
+stream, what the translated `passToHandler` delivers (to whom, which bytes, how many taken), discards, allocates,
+consumes from the stream and returns is exactly `ReadSide.dispatch` — the function the theorems above are about. -/
+theorem src_dispatch (cfg : Cfg) (i : Nat) (h : Header) (inMap : Bool) (beh : Beh) (s : Bytes) :
+    SeqGlue.outOf (Gen.llrp_Client_passToHandler (SeqGlue.dispEnv cfg i beh) { stream := s, awaited := inMap } h)
+      = dispatch cfg i h (!unsolicited h.typ && inMap) beh s :=
+  SeqGlue.src_dispatch_eq cfg i h inMap beh s
 
 end LLRP.C04
